@@ -349,7 +349,8 @@ def predicate (c : Case17) (im : Impl) : List String := Id.run do
             (x ≥ 0 && y ≥ 0 &&
               (let lx := specLnL im.base c.gamma c.alpha F0 (clampRange x)
                let ly := specLnL im.base c.gamma c.alpha F0 (clampRange y)
-               (lx - ly).abs ≤ 1e-12 * (if lx.abs > 1 then lx.abs else 1)))
+               -- the tolerance under which each of them was accepted as a maximiser (`judgeLk`)
+               (lx - ly).abs ≤ lnLTol lx))
           if !same d0 d1 then bad := addClause bad (if rowFreq then "row-perm-empirical-freq" else "row-perm")
           if !same d0 d2 then bad := addClause bad (if colFreq then "col-perm-empirical-freq" else "col-perm")
       -- pairs without usable column: the permuted calls must still agree exactly
